@@ -192,6 +192,100 @@ def classify_e2e(a, o):
     return "faithful" if r == R.EXPECTED else "not-faithful"
 
 
+# ------------------------------------------------------------------ dict.encflags: encode(value, var, wrapped) literally
+_FLAG_VARS = {}
+
+
+def _flag_var(local, wrapper):
+    """the real XmlVar of a list field with the given local name / wrapper"""
+    from dataclasses import field, make_dataclass
+    from typing import List
+
+    from xsdata.formats.dataclass.context import XmlContext
+
+    key = (local, wrapper)
+    if key not in _FLAG_VARS:
+        md = {"type": "Element", "name": local}
+        if wrapper:
+            md["wrapper"] = wrapper
+        cls = make_dataclass("FlagHolder", [("f", List[object], field(default_factory=list, metadata=md))])
+        _FLAG_VARS[key] = XmlContext().build(cls).get_all_vars()[0]
+    return _FLAG_VARS[key]
+
+
+_ITEM = None
+
+
+def _dv_value(dv):
+    """DV description -> the Python value handed to DictEncoder.encode"""
+    global _ITEM
+    from dataclasses import field, make_dataclass
+    from enum import Enum, IntEnum
+    from xml.etree.ElementTree import QName
+
+    if dv is None:
+        return None
+    if "enum" in dv:
+        inner = _dv_value(dv["enum"]["value"])
+        if isinstance(inner, list):
+            inner = tuple(inner)
+        if dv["enum"]["mixin"]:
+            if isinstance(inner, bool) or not isinstance(inner, (int, str)):
+                raise ValueError("mixin enum over int / str only")
+            return (IntEnum("MI", {"M": inner}) if isinstance(inner, int) else Enum("MS", {"M": inner}, type=str)).M
+        return Enum("E", {"M": inner}).M
+    if "list" in dv:
+        return [_dv_value(x) for x in dv["list"]]
+    if "model" in dv:
+        if _ITEM is None:
+            _ITEM = make_dataclass("Item", [("v", int, field(metadata={"type": "Element"}))])
+        return _ITEM(v=dv["model"])
+    if "qname" in dv:
+        return QName(dv["qname"])
+    return next(iter(dv.values()))
+
+
+def _gen_dv(rng, depth=0):
+    r = rng.random()
+    if depth >= 3 or r < 0.3:
+        t = rng.choice(["str", "int", "bool", "none", "model", "qname"])
+        if t == "none":
+            return None
+        if t == "model":
+            return {"model": rng.randint(-3, 9)}
+        if t == "qname":
+            return {"qname": rng.choice(["{urn:a}n", "n"])}
+        return {t: G.rprim(rng, t)}
+    if r < 0.6:
+        return {"list": [_gen_dv(rng, depth + 1) for _ in range(rng.randint(0, 3))]}
+    if r < 0.75:
+        t = rng.choice(["str", "int"])
+        return {"enum": {"mixin": True, "value": {t: G.rprim(rng, t)}}}
+    inner = _gen_dv(rng, depth + 1)
+    while inner is not None and ("model" in inner or "qname" in inner):
+        inner = _gen_dv(rng, depth + 1)
+    return {"enum": {"mixin": False, "value": inner}}
+
+
+def gen_encflags(rng, tier):
+    for _ in range(n_cases(tier, 500, 8000)):
+        wrapper = rng.choice([None, None, "Wrap", "items"])
+        yield {"factory": rng.choice(["dict", "filter_none"]), "wrapper": wrapper, "local": rng.choice(["item", "x"]),
+               "wrapped": rng.random() < 0.3, "value": _gen_dv(rng)}
+
+
+def impl_encflags(a):
+    from xsdata.formats.dataclass.serializers import DictEncoder
+
+    var = _flag_var(a["local"], a["wrapper"])
+    try:
+        r = DictEncoder(dict_factory=D.FACTORIES[a["factory"]]).encode(_dv_value(a["value"]), var, a["wrapped"])
+        # members of mixed-in enumerations are int / str instances: what a JSON library writes for them
+        return {"ok": D.to_j(json.loads(json.dumps(r)))}
+    except Exception as e:  # noqa: BLE001
+        return B.classify_exc(e)
+
+
 CORRS = [
     Corr("dict.enc", gen_enc, impl_enc, compare=cmp_skip,
          describe="DictEncoder.encode / JsonSerializer.render (+json.loads) vs model, both factories; the harness rejects non JSON-native outputs"),
@@ -200,6 +294,9 @@ CORRS = [
                   "explicit / list / detected target"),
     Corr("dict.roundtrip", gen_rt, impl_rt, compare=cmp_member, classify=classify_rt,
          describe="real encode+decode (dict and JSON text routes) vs model encode+decode"),
+    Corr("dict.encflags", gen_encflags, impl_encflags, compare=cmp_skip,
+         describe="DictEncoder.encode(value, var, wrapped) on one real XmlVar (with / without wrapper, both flag values) over nested lists, "
+                  "Enum members (plain, IntEnum / str mixed-in, over primitives and tuples), primitives, None and model instances vs encFlagsF"),
     Corr("c04.e2e", gen_e2e, impl_e2e, spec=spec_e2e, classify=classify_e2e,
          describe="spec-level: seeded universes over float / Decimal / Union[int,float] / Union[int,str] / Union[float,str] / bytes base16+base64 / "
                   "XmlDate / XmlDateTime / XmlDuration / str and int enums (scalar, Optional, List, nested models, list documents), both factories, "
@@ -231,6 +328,8 @@ LEVEL_TEXT = (
     "wrapper, inheritance, unknown keys and wrong shapes."
 )
 LEVEL_NOTE = (
+    "The `wrapped` flag of DictEncoder.encode and Enum members are modelled literally in Dict/EncodeFlags.lean (op dict.encflags, "
+    "theorems wrapper_once / wrapped_ignores_wrapper in Props/C04Wrap.lean). "
     "float, Decimal, unions of primitives, bytes, XmlDate/XmlDateTime/XmlDuration and enums are not in the Lean layer: they are "
     "covered by the spec-level op c04.e2e and the oracle rich_types_roundtrip on the real code only (harness/c04_rich.py). "
     "Outside the proved fragment (executable model + correspondence only): tokens, QName primitives, attributes maps, wildcards, "
